@@ -848,38 +848,43 @@ def refundAndFloor (isLondon : Bool) (eip7702Refund : Int) (floorGas : Nat) (g :
 and `gas_refunded` -/
 def finalGasUsed (g : Gas) : Nat := U64ops.wsub (Revm.Model.Gas.spent g) (Revm.Model.Gas.i64AsU64 g.refunded)
 
-/-- the four outcome consumers of `m` are the mainnet handlers (`handler/mainnet/execution.rs`):
-`insert_*_outcome` = `context.evm.take_error()?` then the interpreter method; `last_frame_return` as above -/
+/-- `handler::mainnet::insert_call_outcome`: `context.evm.take_error()?` then the interpreter method -/
+def mainnetInsertCall {T : Ty} (io : InterpOps T) (takeError : T.E → Res T.Err T.E) (c : T.E) (f : Frame T)
+    (sh : T.Mem) (o : CallOutcome) : Res T.Err (IState T × T.Mem × T.E) :=
+  (takeError c).bind fun c =>
+    match insertCallOutcome io f.interp sh o with
+    | some (st, sh) => .ok (st, sh, c)
+    | none => .panic
+
+/-- `handler::mainnet::insert_create_outcome` -/
+def mainnetInsertCreate {T : Ty} (io : InterpOps T) (takeError : T.E → Res T.Err T.E) (c : T.E) (f : Frame T)
+    (o : CreateOutcome) : Res T.Err (IState T × T.E) :=
+  (takeError c).bind fun c =>
+    match insertCreateOutcome io f.interp o with
+    | some st => .ok (st, c)
+    | none => .panic
+
+/-- `handler::mainnet::insert_eofcreate_outcome` -/
+def mainnetInsertEofcreate {T : Ty} (io : InterpOps T) (takeError : T.E → Res T.Err T.E) (c : T.E) (f : Frame T)
+    (o : CreateOutcome) : Res T.Err (IState T × T.E) :=
+  (takeError c).bind fun c =>
+    match insertEofcreateOutcome io f.interp o with
+    | some st => .ok (st, c)
+    | none => .panic
+
+/-- the four outcome consumers of `m` are the mainnet handlers (`handler/mainnet/execution.rs`) -/
 structure MainnetConsumers {T : Ty} (ops : EnvOps T) (io : InterpOps T) (m : Machine T T.E) : Prop where
-  insertCall : ∀ c f sh o, m.insertCallOutcome c f sh o =
-    (m.takeError c).bind fun c => match insertCallOutcome io f.interp sh o with
-      | some (st, sh) => .ok (st, sh, c)
-      | none => .panic
-  insertCreate : ∀ c f o, m.insertCreateOutcome c f o =
-    (m.takeError c).bind fun c => match insertCreateOutcome io f.interp o with
-      | some st => .ok (st, c)
-      | none => .panic
-  insertEofcreate : ∀ c f o, m.insertEofcreateOutcome c f o =
-    (m.takeError c).bind fun c => match insertEofcreateOutcome io f.interp o with
-      | some st => .ok (st, c)
-      | none => .panic
+  insertCall : ∀ c f sh o, m.insertCallOutcome c f sh o = mainnetInsertCall io m.takeError c f sh o
+  insertCreate : ∀ c f o, m.insertCreateOutcome c f o = mainnetInsertCreate io m.takeError c f o
+  insertEofcreate : ∀ c f o, m.insertEofcreateOutcome c f o = mainnetInsertEofcreate io m.takeError c f o
   last : ∀ c r, m.lastFrameReturn c r = .ok (lastFrameReturn (ops.txGasLimit c) r, c)
 
 /-- the same with the Optimism `last_frame_return` (`dep`, `sys`, `reg` read from the context / spec) -/
 structure OptimismConsumers {T : Ty} (ops : EnvOps T) (io : InterpOps T) (dep : T.E → Bool)
     (sys : T.E → Option Bool) (reg : Bool) (m : Machine T T.E) : Prop where
-  insertCall : ∀ c f sh o, m.insertCallOutcome c f sh o =
-    (m.takeError c).bind fun c => match insertCallOutcome io f.interp sh o with
-      | some (st, sh) => .ok (st, sh, c)
-      | none => .panic
-  insertCreate : ∀ c f o, m.insertCreateOutcome c f o =
-    (m.takeError c).bind fun c => match insertCreateOutcome io f.interp o with
-      | some st => .ok (st, c)
-      | none => .panic
-  insertEofcreate : ∀ c f o, m.insertEofcreateOutcome c f o =
-    (m.takeError c).bind fun c => match insertEofcreateOutcome io f.interp o with
-      | some st => .ok (st, c)
-      | none => .panic
+  insertCall : ∀ c f sh o, m.insertCallOutcome c f sh o = mainnetInsertCall io m.takeError c f sh o
+  insertCreate : ∀ c f o, m.insertCreateOutcome c f o = mainnetInsertCreate io m.takeError c f o
+  insertEofcreate : ∀ c f o, m.insertEofcreateOutcome c f o = mainnetInsertEofcreate io m.takeError c f o
   last : ∀ c r, m.lastFrameReturn c r =
     .ok (lastFrameReturnOp (ops.txGasLimit c) (dep c) (sys c) reg r, c)
 
